@@ -11,7 +11,7 @@ fixed = [f for f in d['findings'] if f['status'] == 'fixed']
 # drop entries whose commit no longer exists and cannot be matched
 by_commit = {f.get('commit'): f for f in fixed}
 PROPS = [('C16', r'RAM access'), ('C20', r'configuration'), ('C05', r'condition'), ('C17', r'ThumbExpandImm|TTBCR.ORGN0'),
-         ('C10', r'modulo 2\^32|wrap|wraps'), ('C09', r'MULS|SSAT'), ('C15', r'TTBR0|PD0'), ('C12', r'SPSRWriteByInstr|SUBS PC, LR \(Thumb\)|exception return executed'),
+         ('C10', r'modulo 2\^32|wrap|wraps'), ('C09', r'MULS|SSAT|UMLALS'), ('C15', r'TTBR0|PD0'), ('C12', r'SPSRWriteByInstr|SUBS PC, LR \(Thumb\)|exception return executed'),
          ('C03', r'LDM|STM|LDMDA|POP'), ('C02', r'LDR \(register\)|STREXD|stores of the PC|MemU'), ('C07', r'Thumb|T2|T3|T4|decode'),
          ('C06', r'ARM ADD/SUB|STRT/STRBT|LDRSB \(register\) A1'), ('C18', r'UNPREDICTABLE encoding'), ('C13', r'instruction fetch')]
 for h, subj in subjects.items():
